@@ -32,6 +32,7 @@ inductive Err where
   | lrshSeq       -- ExceptionLogicalRecordSegmentHeaderSequence (C02, position scan)
   | fuel          -- model only: loop fuel exhausted (unreachable: fuel = file length + 1, every segment read advances ≥ 4)
   | regexChanged  -- model only (unused since the expressions are interpreted from the generated data)
+  | attribute     -- AttributeError (C02: a reader object used before it was ever entered)
   deriving DecidableEq, Repr
 
 /-! ### Storage unit label -/
